@@ -281,7 +281,13 @@ def conclude(mod, out, tier, seed, t0, extra_cov=None, exhaustive=False):
         print('KNOWN-FINDING: property=%s key=%s %s (witnesses this run: %d)' % (prop, key, text, known_hits.get(key, 0)))
     if real:
         seen = set()
-        for v in real[:10]:
+        # show distinct mechanisms first (one per case kind / mnemonic), at most 8 lines
+        groups = {}
+        for v in real:
+            c = v['case'] if isinstance(v['case'], dict) else {}
+            groups.setdefault((c.get('kind'), c.get('m'), v['what'].split()[0]), []).append(v)
+        ordered = [g[0] for g in groups.values()] + [v for g in groups.values() for v in g[1:]]
+        for v in ordered[:8]:
             path = write_replay(prop, v, tier, seed)
             if path in seen:
                 continue
